@@ -4,32 +4,33 @@ package wgen
 // DESIGN.md §9). The random campaigns run with these switched off so that ANY divergence they see is new; each
 // finding's committed witness is replayed separately on every run.
 var Gates = map[string]string{
-	"ptr-param-compound":      "F01 compound assignment through a pointer parameter lowers without a Load",
-	"var-noinit-in-loop":      "F06 `var x: T;` inside a loop body is zeroed once per call, not per iteration",
-	"abstract.builtin":        "F12 builtin calls (min/max/abs) in abstract const-expressions at module scope are rejected",
-	"abstract.neg-compound":   "F12 negation of a parenthesised abstract expression in a module-scope const is rejected",
-	"const.module-array":      "F13 indexing a module-scope const array and then taking a component/member is rejected",
-	"const.mat-binary":        "F17 binary + - on two constant matrices is folded to a wrongly typed value",
-	"ptr.mat-column":          "F18 &m[i] (pointer to a matrix column) as call argument is rejected",
-	"ptr-param.swizzle":       "F19 multi-component swizzle of a dereferenced pointer parameter: load rule not applied",
-	"private.implicit-init":   "F20/F21 SPIR-V: initialisers of private globals are dropped and uninitialised private/function variables are not zeroed",
-	"decl.var-noinit":         "F21 SPIR-V: `var x: T;` without initialiser is left undefined instead of zero",
-	"shift.raw":               "F22 run-time shift amounts are not reduced modulo the bit width (undefined in SPIR-V/GLSL)",
-	"clamp.int-unordered":     "F23 integer clamp(e, low, high) with low > high maps to S/UClamp whose result is undefined",
-	"bits.unclamped-range":    "F24 extractBits/insertBits offset+count beyond 32 is not clamped (undefined in SPIR-V)",
-	"f2i.raw":                 "F25 SPIR-V: f32->i32/u32 conversion of out-of-range values is a bare OpConvertFToS/U (undefined)",
-	"attr.align.nested":       "F26 AlignOf(struct) ignores @align of its members: a struct with an over-aligned member is misplaced when nested",
-	"fn.countLeadingZeros":    "F27 SPIR-V: countLeadingZeros is a bare FindUMsb (wrong for every input)",
-	"fn.countTrailingZeros":   "F27 SPIR-V: countTrailingZeros(0) yields -1 instead of 32 (bare FindILsb)",
-	"fn.abs.u32":              "F29 SPIR-V: abs() on u32 is emitted as SAbs (wrong for values >= 2^31)",
-	"const.module-vec":        "F30 SPIR-V: module-scope const vectors used through a non-literal constant index or bitcast read as zero",
-	"op.%.f32":                "F31 SPIR-V: f32 % is OpFMod (sign of divisor) instead of the truncated remainder",
-	"let.composite-load":      "F32 `let x = <composite in a buffer/variable>` is not snapshotted: later reads of x see later stores",
-	"abstract.neg-neg":        "F33 `-(-N)` in an abstract const-expression is evaluated as float and its bits stored in an integer",
-	"index.dynamic-on-value":  "F34 SPIR-V: dynamic indexing of a let-bound composite spills it inside the first using block; later uses read an undefined variable",
-	"atomic.store-expr":       "F46 atomicStore(&a, expr): the Store precedes the Emit of its value expression (ill-formed IR)",
-	"override.init-const-ref": "F102 an override initialiser that mentions a module constant, a conversion or a built-in call is dropped as a whole (no default)",
-	"override-nonarith-op":    "F09 ProcessOverrides evaluates only + - * /",
+	"ptr-param-compound":        "F01 compound assignment through a pointer parameter lowers without a Load",
+	"var-noinit-in-loop":        "F06 `var x: T;` inside a loop body is zeroed once per call, not per iteration",
+	"abstract.builtin":          "F12 builtin calls (min/max/abs) in abstract const-expressions at module scope are rejected",
+	"abstract.neg-compound":     "F12 negation of a parenthesised abstract expression in a module-scope const is rejected",
+	"const.module-array":        "F13 indexing a module-scope const array and then taking a component/member is rejected",
+	"const.mat-binary":          "F17 binary + - on two constant matrices is folded to a wrongly typed value",
+	"ptr.mat-column":            "F18 &m[i] (pointer to a matrix column) as call argument is rejected",
+	"ptr-param.swizzle":         "F19 multi-component swizzle of a dereferenced pointer parameter: load rule not applied",
+	"private.implicit-init":     "F20/F21 SPIR-V: initialisers of private globals are dropped and uninitialised private/function variables are not zeroed",
+	"decl.var-noinit":           "F21 SPIR-V: `var x: T;` without initialiser is left undefined instead of zero",
+	"shift.raw":                 "F22 run-time shift amounts are not reduced modulo the bit width (undefined in SPIR-V/GLSL)",
+	"clamp.int-unordered":       "F23 integer clamp(e, low, high) with low > high maps to S/UClamp whose result is undefined",
+	"bits.unclamped-range":      "F24 extractBits/insertBits offset+count beyond 32 is not clamped (undefined in SPIR-V)",
+	"f2i.raw":                   "F25 SPIR-V: f32->i32/u32 conversion of out-of-range values is a bare OpConvertFToS/U (undefined)",
+	"attr.align.nested":         "F26 AlignOf(struct) ignores @align of its members: a struct with an over-aligned member is misplaced when nested",
+	"fn.countLeadingZeros":      "F27 SPIR-V: countLeadingZeros is a bare FindUMsb (wrong for every input)",
+	"fn.countTrailingZeros":     "F27 SPIR-V: countTrailingZeros(0) yields -1 instead of 32 (bare FindILsb)",
+	"fn.abs.u32":                "F29 SPIR-V: abs() on u32 is emitted as SAbs (wrong for values >= 2^31)",
+	"const.module-vec":          "F30 SPIR-V: module-scope const vectors used through a non-literal constant index or bitcast read as zero",
+	"abstract.mixed-int-divmod": "F149 an abstract-int / or % inside an abstract-float expression: the division is evaluated in floating point, the remainder is rejected (module-scope constants)",
+	"op.%.f32":                  "F31 SPIR-V: f32 % is OpFMod (sign of divisor) instead of the truncated remainder",
+	"let.composite-load":        "F32 `let x = <composite in a buffer/variable>` is not snapshotted: later reads of x see later stores",
+	"abstract.neg-neg":          "F33 `-(-N)` in an abstract const-expression is evaluated as float and its bits stored in an integer",
+	"index.dynamic-on-value":    "F34 SPIR-V: dynamic indexing of a let-bound composite spills it inside the first using block; later uses read an undefined variable",
+	"atomic.store-expr":         "F46 atomicStore(&a, expr): the Store precedes the Emit of its value expression (ill-formed IR)",
+	"override.init-const-ref":   "F102 an override initialiser that mentions a module constant, a conversion or a built-in call is dropped as a whole (no default)",
+	"override-nonarith-op":      "F09 ProcessOverrides evaluates only + - * /",
 }
 
 // SafeOff returns an Off map with every gate closed, plus extra.
